@@ -696,11 +696,12 @@ class RefG(G):
         if r.random() < 0.15 and other_idk not in root:
             root[other_idk] = r.choice(["http://decoy.example/base/", "http://ex.org/decoy/x.json", "decoy/"])
         # sibling keywords next to $ref must be ignored
-        if r.random() < 0.3:
+        if r.random() < 0.4:
             for c, k, _ in all_slots(root, d):
-                if isinstance(c[k], dict) and "$ref" in c[k] and r.random() < 0.5:
+                if isinstance(c[k], dict) and "$ref" in c[k] and r.random() < 0.7:
                     c[k]["type"] = r.choice(SIMPLE_TYPES)
-                    c[k]["minimum"] = 10 ** 9
+                    if r.random() < 0.6:
+                        c[k]["minimum"] = 10 ** 9
         # an id on the path that changes the base for relative references below it
         if r.random() < 0.2 and isinstance(root.get("properties"), dict) and root["properties"]:
             pk = r.choice(list(root["properties"]))
